@@ -1,10 +1,10 @@
 package rules
 
 import (
-	"os"
-	"sort"
 	"go/token"
 	"go/types"
+	"os"
+	"sort"
 	"strings"
 
 	"golang.org/x/tools/go/ssa"
